@@ -21,8 +21,10 @@ import (
 	"fmt"
 	"net/http"
 	"net/http/httptest"
+	"runtime"
 	"strings"
 	"sync"
+	"sync/atomic"
 	"testing"
 	"time"
 
@@ -75,7 +77,7 @@ type v6Sub struct {
 	sct       *ct.SignedCertificateTimestamp
 	leafHash  [32]byte // what a client computes from certificate and SCT alone
 	idHash    [32]byte
-	wantExtra []byte // expected stored extra data (validated path: submitted intermediates + root)
+	wantExtra []byte   // expected stored extra data (validated path: submitted intermediates + root)
 	stored    [][]byte // expected stored chain after the leaf
 }
 
@@ -659,6 +661,92 @@ func (e *v6Env) concurrent(readers, rounds int) {
 	wg.Wait()
 }
 
+// sthHammer: many concurrent get-sth callers while the backend's root keeps changing (new leaves and
+// timestamp-only changes, one every few served STHs). Every served STH must verify under the log key
+// (client.GetSTH checks the signature) and be a root that was current at some moment during the call:
+// size, root hash and millisecond timestamp. The handlers share only the one-entry signature cache and
+// the backend, so this is the phase that exercises the cache's get/set under real interleavings.
+// The root changes are made by this goroutine alone and are model lines (`seq`), in order.
+func (e *v6Env) sthHammer(readers, total int) {
+	var served int64
+	var wg sync.WaitGroup
+	var fmu sync.Mutex
+	var verified sync.Map
+	nfail := 0
+	fail := func(k, d string) {
+		fmu.Lock()
+		defer fmu.Unlock()
+		nfail++
+		if nfail <= 5 {
+			e.out.Fail(e.name+" sth-hammer "+k, d)
+		}
+	}
+	for g := 0; g < readers; g++ {
+		wg.Add(1)
+		go func() {
+			defer wg.Done()
+			ctx := context.Background()
+			for atomic.LoadInt64(&served) < int64(total) {
+				before := e.backend.NumRoots()
+				var rsp ct.GetSTHResponse
+				_, _, err := e.lc.GetAndParse(ctx, ct.GetSTHPath, nil, &rsp)
+				after := e.backend.NumRoots()
+				atomic.AddInt64(&served, 1)
+				if err != nil {
+					fail("get-sth", err.Error())
+					continue
+				}
+				sth, err := rsp.ToSignedTreeHead()
+				if err != nil {
+					fail("get-sth", err.Error())
+					continue
+				}
+				// the client's verifier (what client.GetSTH runs); a (head, signature) pair that has verified once is not re-verified
+				vk := fmt.Sprintf("%d %d %x %x", sth.TreeSize, sth.Timestamp, sth.SHA256RootHash[:], sth.TreeHeadSignature.Signature)
+				if _, seen := verified.Load(vk); !seen {
+					if verr := e.lc.VerifySTHSignature(*sth); verr != nil {
+						fail("get-sth", fmt.Sprintf("served STH (size=%d, timestamp=%d, root=%x) does not verify under the log key: %v", sth.TreeSize, sth.Timestamp, sth.SHA256RootHash[:], verr))
+						continue
+					}
+					verified.Store(vk, true)
+				}
+				ok := false
+				for i := before - 1; i < after && !ok; i++ {
+					r := e.backend.RootN(i)
+					ok = r.Size == sth.TreeSize && bytes.Equal(r.Hash, sth.SHA256RootHash[:]) && r.TSNanos/1_000_000 == sth.Timestamp
+				}
+				if !ok {
+					fail("get-sth", fmt.Sprintf("served STH (size=%d, timestamp=%d, root=%x) is none of the %d backend roots that were current during the call", sth.TreeSize, sth.Timestamp, sth.SHA256RootHash[:], after-before+1))
+				}
+			}
+		}()
+	}
+	next := int64(0)
+	changes := 0
+	for {
+		n := atomic.LoadInt64(&served)
+		if n >= int64(total) {
+			break
+		}
+		if n < next {
+			runtime.Gosched()
+			continue
+		}
+		next = n + 1 + e.r.I64n(6)
+		k := 0
+		if e.backend.Pending() > 0 && e.r.Intn(3) == 0 {
+			k = 1 // the tree grows by one leaf
+		}
+		e.tsNanos += uint64(1_000_000 + e.r.I64n(5_000_000)) // at least one millisecond: the signed input changes
+		size := e.backend.Sequence(k, e.tsNanos)
+		e.out.T(fmt.Sprintf("seq %d %d", k, e.tsNanos), fmt.Sprintf("size %d", size))
+		changes++
+	}
+	wg.Wait()
+	e.out.Add("class:sth-hammer-get-sth", atomic.LoadInt64(&served))
+	e.out.Add("class:sth-hammer-root-change", int64(changes))
+}
+
 func TestVerifC06(t *testing.T) {
 	out := verifkit.Open()
 	defer out.Close()
@@ -671,6 +759,12 @@ func TestVerifC06(t *testing.T) {
 			e.step()
 			if i == nOps/2 {
 				e.concurrent(8, verifkit.N(25, 60))
+			}
+			if i == nOps/3 || i == 2*nOps/3 {
+				for j := 0; j < 12; j++ { // leaves to sequence one at a time during the hammer
+					e.submit(nil)
+				}
+				e.sthHammer(32, verifkit.N(15000, 6000)) // thorough has 40 histories: fewer requests per hammer, more in total
 			}
 		}
 		e.sweep(h == 0 || verifkit.Thorough())
